@@ -102,7 +102,9 @@ type Cfg struct {
 	FinishAlways bool   `json:"finish_always,omitempty"`  // call Finish also after a failed Exec/Flush
 	SetSession   bool   `json:"set_session,omitempty"`    // caller sets the session on the store handle (as examples/http does)
 	First        bool   `json:"first,omitempty"`          // every engine is built WithFirst(a benign scripted pre-VM function)
+	FirstContent string `json:"first_content,omitempty"`  // what that function returns ("-" = empty content; unset = "first")
 	ResetOnEmpty bool   `json:"reset_on_empty,omitempty"` // engine.Config.ResetOnEmptyInput
+	FinishLate   bool   `json:"finish_late,omitempty"`    // Finish is called once, when an engine is retired (as engine.Loop's defer), not after every request
 }
 
 // ---------------------------------------------------------------------------------------
@@ -156,6 +158,9 @@ type Sess struct {
 	// LangSeen records the language observed on every lookup, in order.
 	Lookups     []Lookup
 	KeepLookups bool
+	// FailFirstNext makes the next call of the pre-VM function fail (fault injection); FirstFailed counts them.
+	FailFirstNext bool
+	FirstFailed   int
 	PosLog      []Pos // position after every request
 }
 
@@ -181,10 +186,12 @@ type World struct {
 	ResFor   func(s *Sess) resource.Resource // optional override of the resource stack
 	Disk     *simfs.FS
 	Pg       *pgfake.Server
+	// Fired counts the faults that actually reached the library, by kind (evidence only; never feeds a decision).
+	Fired map[string]int
 }
 
 func New(a *app.App, cfg Cfg) *World {
-	return &World{App: a, Cfg: cfg, Rec: NewRecorder()}
+	return &World{App: a, Cfg: cfg, Rec: NewRecorder(), Fired: map[string]int{}}
 }
 
 func (w *World) NewSession(id string, persisted bool) *Sess {
@@ -399,13 +406,35 @@ func (s *Sess) firstFunc(ctx context.Context, sym string, input []byte) (resourc
 	}
 	s.CallLog = append(s.CallLog, ExtCall{Sym: "_first", K: k, Input: string(input), Lang: ctxLang(ctx)})
 	s.W.Rec.Add(s.Idx, "First", fmt.Sprintf("#%d", k), "")
-	return resource.Result{Content: "first"}, nil // constant: how often an engine is built must not show
+	if s.FailFirstNext {
+		// injected fault: the pre-VM function (typically an account lookup) fails once
+		s.FailFirstNext = false
+		s.FirstFailed++
+		return resource.Result{}, fmt.Errorf("injected failure of the pre-VM function")
+	}
+	switch s.W.Cfg.FirstContent {
+	case "":
+		return resource.Result{Content: "first"}, nil // constant: how often an engine is built must not show
+	case "-":
+		return resource.Result{}, nil
+	}
+	return resource.Result{Content: s.W.Cfg.FirstContent}, nil
+}
+
+// Retire calls Finish on the current engine (gateway policy FinishLate) and drops it.
+func (s *Sess) Retire() {
+	if s.Eng != nil && s.Persist && s.W.Cfg.FinishLate {
+		eng := s.Eng
+		Guard(func() { eng.Finish(context.Background()) })
+		s.W.Rec.Add(s.Idx, "FinishLate", "", "")
+	}
+	s.Eng = nil
+	s.Pe = nil
 }
 
 // build creates a fresh engine (and persister, store handle) for the session.
 func (s *Sess) build() error {
-	s.Eng = nil
-	s.Pe = nil
+	s.Retire()
 	if s.Persist {
 		if s.W.NewStore != nil {
 			st, err := s.W.NewStore(s)
@@ -467,6 +496,37 @@ func (s *Sess) Request(input []byte, fresh bool) *Step {
 	}
 	s.cur = &st
 	ctx := context.Background()
+	ncBefore := len(s.CallLog)
+	browseSel := false
+	if pp, _ := s.Position(); len(pp) > 0 && s.W.App != nil && len(input) > 0 {
+		if n := s.W.App.Node(pp[len(pp)-1]); n != nil {
+			for _, in := range n.Code {
+				if (in.Op == app.MNEXT || in.Op == app.MPREV) && in.B == string(input) {
+					browseSel = true
+				}
+			}
+		}
+	}
+	defer func() {
+		for _, cl := range s.CallLog[ncBefore:] {
+			x := s.W.App.ExtSym(cl.Sym)
+			switch {
+			case cl.Err:
+				s.W.Fired["ext_error"]++
+			case x != nil && x.Size > 0 && len(cl.Out) > int(x.Size):
+				s.W.Fired["ext_oversize"]++
+			case cl.Out == "" && cl.Sym != "_first":
+				s.W.Fired["ext_empty"]++
+			}
+		}
+		if browseSel {
+			// a browse selector that could not be served: beyond either end of the pages
+			pp, _ := s.Position()
+			if st.FlushErr != "" || st.ExecErr != "" || (len(pp) > 0 && pp[len(pp)-1] == "_catch") {
+				s.W.Fired["client_browse_oob"]++
+			}
+		}
+	}()
 	s.W.Rec.Add(s.Idx, "Exec", string(input), "")
 	var cont bool
 	var err error
@@ -501,7 +561,7 @@ func (s *Sess) Request(input []byte, fresh bool) *Step {
 			s.Ca = c
 		}
 	}
-	if s.Persist && st.Panic == "" && (okSoFar || s.W.Cfg.FinishAlways) {
+	if s.Persist && !s.W.Cfg.FinishLate && st.Panic == "" && (okSoFar || s.W.Cfg.FinishAlways) {
 		var ferr error
 		msg, at = Guard(func() { ferr = s.Eng.Finish(ctx) })
 		st.Finished = true
